@@ -528,7 +528,11 @@ func findBufferLen(fn *ssa.Function) ssa.Value {
 
 func c12Response(ctx *core.Ctx, r *RT, pr *bounds.Prover) {
 	sr := r.Fn("C12.R4", "(*FBaseProcessorFunction).SendReply")
-	trap := r.Fn("C12.R4", "(*FBaseProcessorFunction).trapError")
+	trap := r.roleTrapError()
+	if trap == nil {
+		ctx.Unresolved("C12.R4", "error trap of SendReply", "no method with an error parameter among SendReply's callees")
+	}
+	sendErr := r.roleSendError()
 	if sr != nil && trap != nil {
 		// every return of SendReply is nil or trapError(…, err of a write step)
 		n := 0
@@ -567,7 +571,7 @@ func c12Response(ctx *core.Ctx, r *RT, pr *bounds.Prover) {
 				if iff, isIf := u.(*ssa.If); isIf {
 					tb := iff.Block().Succs[0]
 					for _, c2 := range ssax.Calls(trap) {
-						if c2.Static != nil && c2.Static.Name() == "sendError" && c2.Instr.Block() == tb {
+						if c2.Static != nil && c2.Static == sendErr && c2.Instr.Block() == tb {
 							for _, a := range c2.Common.Args {
 								if k, isK := ssax.ConstInt(a); isK && k == constInt(r, "APPLICATION_EXCEPTION_RESPONSE_TOO_LARGE") {
 									if _, isI := a.Type().Underlying().(*types.Basic); isI {
